@@ -1,3 +1,3 @@
-CONSTANTS N = 4  W = 3  D = 27720
+CONSTANTS N = 4  W = 2  D = 840
 INIT Init
 NEXT Next
